@@ -96,9 +96,8 @@ def scenarios(ctx):
             for end in ("silence", "eof"):
                 for ssl in (False, True):
                     scs.append(scenario(word, end, ssl))
-    if ctx.thorough():
-        for word in itertools.product(alpha, repeat=6):
-            scs.append(scenario(word, "eof", False))
+    for word in itertools.product(alpha, repeat=6 if ctx.thorough() else 5):
+        scs.append(scenario(word, "eof", False))
     # a first fragment alone
     for word in (["H"], ["t", "H", "p"], ["H", "H"], ["U", "H", "q"]):
         for ssl in (False, True):
